@@ -1006,6 +1006,8 @@ class Interp(Engine):
             return base.map(lambda t: getattr(t, name)).collapse()
         if isinstance(base, Opaque):
             return Opaque(base.tag + "." + name)
+        if name == "bit_length" and isinstance(base, (SInt, PyLong)):
+            return BoundMethod(base, name)
         if isinstance(base, SVal):
             raise Unsupported("attribute %s of symbolic %s" % (name, type(base).__name__))
         if isinstance(base, _LocalDict):
@@ -1672,6 +1674,17 @@ class Interp(Engine):
 
     # ------------------------------------------------------------------------ methods on modelled objects
     def call_method(self, recv, name, args, kwargs, node, f):
+        if name == "bit_length" and not args and isinstance(recv, (SInt, PyLong)) :
+            # int.bit_length(): a fresh n constrained by true facts only (sound, incomplete): n >= 0, n == 0 iff x == 0,
+            # and n <= k iff |x| < 2**k for the word sizes code compares against
+            xe = _ie(recv.v if isinstance(recv, PyLong) else recv)
+            n = z3.Int(self.fresh("bit_length"))
+            ax = z3.If(xe < 0, -xe, xe)
+            self.run.pc.append(z3.And(n >= 0, (n == 0) == (xe == 0)))
+            for k in (1, 7, 8, 15, 16, 30, 31, 32, 62, 63, 64):
+                self.run.pc.append((n <= k) == (ax < (1 << k)))
+            self.assumed.add("int.bit_length(): axiomatised by n >= 0, n == 0 iff x == 0, n <= k iff |x| < 2**k for k in 1,7,8,15,16,30,31,32,62,63,64 (true facts only)")
+            return SInt(n)
         if isinstance(recv, (HList, HSymList, HSetList, HRefTable)):
             if name == "append":
                 self.list_append(recv, args[0])
